@@ -86,6 +86,8 @@ def key_pool(rng, n, prefix_free):
     pool = set()
     if prefix_free:
         ln = rng.choice([1, 2, 5, 9, 24])
+        if ln == 1 and n > 100:     # only 256 one-byte keys exist
+            ln = 2
         while len(pool) < n:
             pool.add(bytes(rng.choice([0, 1, 97, 98, 254, 255, rng.randrange(256)]) for _ in range(ln)))
         return [list(k) for k in pool]
